@@ -52,6 +52,8 @@ package cleaner
 //@ func (w *Worker) RunOnce
 //@   modifies *
 //@   at_call simpleblob.Interface.List#0 assert lists_own_database_only: arg2 == w.prefix
+//@   after_call snapshot.ParseName#0 ghost loc_parsed := ite(ret1 == nil, 1, 0)
+//@   at_call append#0 assert only_well_formed_snapshot_names_are_candidates: ghost_loc_parsed == 1 && ni.Kind == snapshot.KindSnapshot
 //@   at_call cleaner.(*Worker).GetCommitted#0 assert asks_for_that_instance: arg1 == ni.InstanceID
 //@   after_call cleaner.(*Worker).GetCommitted#0 ghost loc_lcWall := ret0.wall
 //@   after_call cleaner.(*Worker).GetCommitted#0 ghost loc_lcExt := ret0.ext
